@@ -133,6 +133,222 @@ def _elem_value(rng):
 	return v
 
 
+# ---------------------------------------------------------------------------------------------------------------------
+# wave-3 strengthening: input CLASSES rather than single inputs (statefulness, Unicode forms, lengths at limits,
+# every registry name in several letter cases, degenerate values, independent re-encoding of the composed field)
+
+# (2) normalisation forms and look-alikes: text must come back code point for code point
+UNI = ['\u0065\u0301', '\u00e9', '\u212b', '\u00c5', '\u0041\u030a', '\u2126', '\u03a9', '\u212a', '\u004b', '\u1100\u1161\u11a8', '\uac01', '\uf900',
+	'\u8c48', '\ufa10', '\u585a', '\U0001f600', '\U00020000', '\U0010ffff', '\ufb01', '\u0066\u0069', '\u00df', '\u1e9e', '\u01c6', '\u0130', '\u0131',
+	'\ufeff', '\u00a0', '\u2028', '\u200b', '\u00ad', '\uff21', '\u3000', '\u0344', '\u0308\u0301', '\u1e69', '\u0073\u0323\u0307', '\u0073\u0307\u0323']
+# (3) lengths at and around limits
+LIMITS = [11, 12, 56, 57, 58, 75, 76, 77, 255, 256, 1023, 1024, 4095, 4096, 8190, 8191, 8192]
+BIG_LIMITS = [65535, 65536]
+# (5) degenerate values; the user name never contains a colon (outside the property)
+DEG_P = [b'', b' ', b'  ', b'\t', b'\r\n', b'\n', b' \t ', b':', b'::', b':::', b': :', b' :', b': ', b'a::b', b':a:', b'"', b'""', b'"a', b'a"',
+	b'"a:b', b'\\', b'\\"', b'=', b'==', b'=?', b',', b',,', b';', b';;', b'a,,b', b'\x00', b'\x00\x00', b'%', b'%3a', b'%3A', b"'", b"''"]
+DEG_U = [b'', b' ', b'  ', b'\t', b'\r\n', b'\n', b' \t ', b'"', b'""', b'"a', b'a"', b'\\', b'=', b'==', b',', b',,', b';', b';;', b'\x00', b'%3a', b"'"]
+
+
+def _registry():
+	"""(4) every header name and every scheme name the code consults, read from the working tree at run time"""
+	from httoop.authentication import AuthRequestElement
+	from httoop.authentication.basic import BasicAuthRequestScheme
+	from httoop.header.element import HEADER
+	hdrs = sorted(k for k, v in HEADER.items() if isinstance(v, type) and issubclass(v, AuthRequestElement))
+	names = set()
+	for k in hdrs:
+		names.update(n for n, s in HEADER[k].schemes.items() if s is BasicAuthRequestScheme)
+	return hdrs, sorted(names)
+
+
+def _spellings(name):
+	"""every letter-case variant of a registry name"""
+	outs = ['']
+	for ch in name:
+		outs = [o + x for o in outs for x in sorted({ch.lower(), ch.upper()})]
+	return outs
+
+
+def _anycase(rng, name):
+	return ''.join(rng.choice([ch.lower(), ch.upper()]) for ch in name)
+
+
+def _utext(rng, colon_ok):
+	n = rng.randint(1, 4)
+	parts = []
+	for _ in range(n):
+		r = rng.random()
+		parts.append(rng.choice(UNI) if r < 0.75 else rng.choice(['a', 'Z', ' ', ':', '9'] if colon_ok else ['a', 'Z', ' ', '9']))
+	return ''.join(parts)
+
+
+def _small_cred(rng):
+	r = rng.random()
+	if r < 0.6:
+		return _content(rng, rng.randint(0, 4), False), _content(rng, rng.randint(0, 5), True)
+	if r < 0.75:
+		return rng.choice(DEG_U), rng.choice(DEG_P)
+	if r < 0.9:
+		t = rng.choice([56, 57, 58, 59, 113, 114, 115])
+		lu = rng.randint(0, min(t, 20))
+		return _content(rng, lu, False), _content(rng, t - lu, True)
+	return _utext(rng, False).encode('utf-8'), _utext(rng, True).encode('utf-8')
+
+
+def _ascii_cred(rng):
+	u = bytes(rng.choice(b'abcXYZ019 ._-~!"=?') for _ in range(rng.randint(0, 6)))
+	p = bytes(rng.choice(b'abcXYZ019 ._-~!"=?::') for _ in range(rng.randint(0, 8)))
+	return u, p
+
+
+# ways to give credentials to an element / to change them afterwards (every public way), and ways to compose / receive
+SET_NEW = ['new', 'new_text', 'parsed', 'create']
+SET_MOD = ['item', 'item_b', 'item_p', 'item_u', 'update', 'update_p', 'replace', 'popset', 'delset', 'clear', 'setdefault', 'attr', 'attr_p', 'attr_u',
+	'item_text', 'value', 'none', 'twin']
+MODES = ['bytes', 'compose', 'hdr', 'hdr_fresh', 'str', 'set_element']
+RXS = ['fresh', 'clear', 'set', 'del', 'pop', 'append']
+
+
+def _seq_step(rng, e, way, mode, rx, schemes, known):
+	st = {'e': e, 'set': way, 'mode': mode, 'rx': rx}
+	if way in ('attr', 'attr_p', 'attr_u'):
+		u, p = _ascii_cred(rng)
+	elif way in ('new_text', 'item_text'):
+		tu, tp = _utext(rng, False), _utext(rng, True)
+		st['text'] = [tu, tp]
+		u, p = tu.encode('utf-8'), tp.encode('utf-8')
+	else:
+		u, p = _small_cred(rng)
+	if known and 'text' not in st and rng.random() < 0.3:  # the same user name again with another password (and the reverse): keyed caches
+		u = bytes.fromhex(rng.choice(known)['u'])
+		if way in ('attr', 'attr_u') and not all(0x20 <= ch < 0x7f for ch in u):
+			u = b'same'
+	st['u'], st['p'] = u.hex(), p.hex()
+	if way in SET_NEW or way == 'value' or way == 'twin' or mode == 'set_element':
+		st['scheme'] = rng.choice(schemes)
+	return st
+
+
+def _gen_seq(rng, hdrs, schemes, count):
+	cases = []
+	# systematic: every way of changing the credentials x every way of composing, on an element that was composed before
+	for way in SET_MOD:
+		for mode in MODES:
+			first = _seq_step(rng, 0, rng.choice(SET_NEW), rng.choice(MODES) if rng.random() < 0.3 else mode, rng.choice(RXS), schemes, [])
+			steps = [first]
+			if way == 'twin':
+				steps.append(_seq_step(rng, 1, 'twin', mode, rng.choice(RXS), schemes, steps))
+				steps.append(_seq_step(rng, 0, rng.choice(['item', 'update', 'attr', 'clear']), mode, rng.choice(RXS), schemes, steps))
+				steps.append(_seq_step(rng, 1, 'none', mode, rng.choice(RXS), schemes, steps))
+			else:
+				steps.append(_seq_step(rng, 0, way, mode, rng.choice(RXS), schemes, steps))
+			cases.append({'k': 'seq', 'hdr': rng.choice(hdrs), 'steps': steps})
+	# every way of receiving on one Headers object that already received another field
+	for rx in RXS:
+		for mode in MODES:
+			steps = [_seq_step(rng, 0, 'new', mode, rx, schemes, [])]
+			steps.append(_seq_step(rng, 0, rng.choice(['new', 'item', 'update']), mode, rx, schemes, steps))
+			cases.append({'k': 'seq', 'hdr': rng.choice(hdrs), 'steps': steps})
+	for _ in range(count):
+		steps = [_seq_step(rng, 0, rng.choice(SET_NEW), rng.choice(MODES), rng.choice(RXS), schemes, [])]
+		have = {0}
+		for _ in range(rng.randint(1, 4)):
+			e = rng.choice([0, 0, 0, 1])
+			if e not in have:
+				way = rng.choice(SET_NEW + ['twin'])
+			else:
+				way = rng.choice(SET_MOD + SET_NEW[:1]) if rng.random() < 0.9 else rng.choice(SET_NEW)
+			if way == 'twin' and (1 - e) not in have:
+				way = 'new'
+			have.add(e)
+			steps.append(_seq_step(rng, e, way, rng.choice(MODES), rng.choice(RXS), schemes, steps))
+		cases.append({'k': 'seq', 'hdr': rng.choice(hdrs), 'steps': steps})
+	return cases
+
+
+SEPS = [b' ', b' ', b'  ', b'   ', b'\r\n  ', b'\r\n\t ', b' \r\n ', b' \r\n\t', b'  \r\n  ']
+OWS1 = [b' ', b' ', b'', b'\t', b'  ', b' \t', b'\r\n ', b'\r\n\t']
+OWS2 = [b'', b'', b' ', b'\t', b' \t ', b'\r\n ']
+OTHER = [b'Host: example.org', b'X-Token: Basic Zm9vOmJhcg==', b'Authorization-Extra: Basic Zm9vOmJhcg==', b'Cookie: a=b; c=d', b'Accept: */*',
+	b'WWW-Authenticate: Basic realm="x"', b'X-Empty:']
+
+
+def _gen_reenc(rng, hdrs, schemes, count):
+	cases = []
+	lines = []
+	for hdr in hdrs:  # every spelling axis once with everything else plain
+		for name in [hdr.lower(), hdr.upper(), hdr, hdr.swapcase()]:
+			lines.append({'hdr': hdr, 'name': name})
+		for sep in SEPS:
+			lines.append({'hdr': hdr, 'sep': sep.hex()})
+		for o in OWS1:
+			lines.append({'hdr': hdr, 'ows1': o.hex()})
+		for o in OWS2:
+			lines.append({'hdr': hdr, 'ows2': o.hex()})
+	for name in schemes:
+		for sp in _spellings(name):
+			lines.append({'hdr': rng.choice(hdrs), 'wscheme': sp})
+	for _ in range(count):
+		hdr = rng.choice(hdrs)
+		d = {'hdr': hdr, 'name': _anycase(rng, hdr), 'sep': rng.choice(SEPS).hex(), 'ows1': rng.choice(OWS1).hex(), 'ows2': rng.choice(OWS2).hex(),
+			'wscheme': _anycase(rng, rng.choice(schemes)), 'lookup': _anycase(rng, hdr)}
+		if rng.random() < 0.6:
+			d['before'] = [rng.choice(OTHER).hex() for _ in range(rng.randint(0, 2))]
+			d['after'] = [rng.choice(OTHER).hex() for _ in range(rng.randint(0, 2))]
+		if rng.random() < 0.3:  # the other credentials field next to it, with other credentials
+			others = [h for h in hdrs if h != hdr]
+			if others:
+				ou, op = _small_cred(rng)
+				d['other'] = [rng.choice(others), ou.hex(), op.hex(), rng.random() < 0.5]
+		lines.append(d)
+	for d in lines:
+		u, p = _small_cred(rng) if rng.random() < 0.8 else _cred(rng)
+		c = {'k': 'reenc', 'scheme': rng.choice(schemes), 'u': u.hex(), 'p': p.hex()}
+		c.update(d)
+		cases.append(c)
+	return cases
+
+
+def _gen_classes(rng, tier):
+	big = tier == 'thorough'
+	hdrs, names = _registry()
+	assert set(HDRS) <= set(hdrs) and 'basic' in names, (hdrs, names)
+	schemes = [sp for n in names for sp in _spellings(n)]
+	cases = []
+	# (4) every spelling of every registry name, both through the element and through Headers
+	for hdr in hdrs:
+		for sp in schemes:
+			u, p = _small_cred(rng)
+			cases.append({'k': 'rt', 'hdr': hdr, 'scheme': sp, 'u': u.hex(), 'p': p.hex()})
+	# (2) Unicode forms as text (str) credentials, each piece alone, in context, and as pairs of look-alikes
+	for hdr in hdrs:
+		for piece in UNI:
+			for u, p in ((piece, 'p'), ('u', piece), (piece, piece), ('a' + piece + 'b', ':' + piece + ':')):
+				cases.append({'k': 'rt', 'hdr': hdr, 'scheme': 'Basic', 'u': u.encode('utf-8').hex(), 'p': p.encode('utf-8').hex(), 'text': [u, p]})
+	for _ in range(1500 if big else 150):
+		u, p = _utext(rng, False), _utext(rng, True)
+		cases.append({'k': 'rt', 'hdr': rng.choice(hdrs), 'scheme': rng.choice(schemes), 'u': u.encode('utf-8').hex(), 'p': p.encode('utf-8').hex(), 'text': [u, p]})
+	# (3) lengths at and around limits, in the user name, in the password and in user:password
+	for t in LIMITS + (BIG_LIMITS if big else []):
+		for lu, lp in ((t, 0), (0, t), (t, t), (1, t - 2), (t - 2, 1), (t // 2, t - 1 - t // 2), (t - 1, 0), (0, t - 1)):
+			cases.append({'k': 'rt', 'hdr': rng.choice(hdrs), 'scheme': 'Basic', 'u': _content(rng, lu, False).hex(), 'p': _content(rng, lp, True).hex()})
+	if not big:
+		for t in BIG_LIMITS:
+			lu = rng.choice([0, 1, t // 2, t - 1])
+			cases.append({'k': 'rt', 'hdr': rng.choice(hdrs), 'scheme': 'Basic', 'u': _content(rng, lu, False).hex(), 'p': _content(rng, t - 1 - lu, True).hex()})
+	# (5) degenerate values in both positions
+	for u in DEG_U:
+		for p in DEG_P:
+			if big or rng.random() < 0.5:
+				cases.append({'k': 'rt', 'hdr': rng.choice(hdrs), 'scheme': 'Basic', 'u': u.hex(), 'p': p.hex()})
+	# (1) one object used more than once and changed between the uses
+	cases.extend(_gen_seq(rng, hdrs, schemes, 4000 if big else 350))
+	# (6) the composed field re-encoded independently (name case, scheme case, white space, folding, neighbours)
+	cases.extend(_gen_reenc(rng, hdrs, schemes, 4000 if big else 300))
+	return cases
+
+
 def gen_cases(rng, tier):
 	cases = []
 	big = tier == 'thorough'
@@ -180,6 +396,7 @@ def gen_cases(rng, tier):
 		u = ''.join(rng.choice(['a', 'ä', '€', 'Z', ' ', '\U0001f600', 'ÿ']) for _ in range(rng.randint(0, 20)))
 		p = ''.join(rng.choice(['a', 'ä', '€', ':', ' ', '\U0001f600', 'ÿ', ':']) for _ in range(rng.randint(0, 40)))
 		cases.append({'k': 'rt', 'hdr': rng.choice(HDRS), 'scheme': 'Basic', 'u': u.encode('utf-8').hex(), 'p': p.encode('utf-8').hex(), 'text': [u, p]})
+	cases.extend(_gen_classes(rng, tier))
 	return cases
 
 
@@ -197,12 +414,238 @@ def _params(c):
 	return ByteUnicodeDict(d)
 
 
+def _title(scheme):
+	"""what AuthElement.compose puts in front: first letter upper case, the rest lower case (ASCII names only)"""
+	return (scheme[:1].upper() + scheme[1:].lower()).encode('ascii')
+
+
+def _seq_expect(steps):
+	"""independent bookkeeping of the FINAL data of each element after every step: [(scheme, user, password)] per step;
+	the expectation of a step is what a fresh element built from these data composes"""
+	st = {}
+	out = []
+	for s in steps:
+		e, way = s['e'], s['set']
+		u, p = _h(s['u']), _h(s['p'])
+		if way in ('new', 'new_text', 'create'):
+			st[e] = [s['scheme'], u, p]
+		elif way == 'parsed':
+			st[e] = [_title(s['scheme']).decode('ascii'), u, p]
+		elif way == 'twin':
+			st[e] = [s['scheme'], st[1 - e][1], st[1 - e][2]]
+		elif way in ('item_p', 'update_p', 'attr_p'):
+			st[e][2] = p
+		elif way in ('item_u', 'attr_u'):
+			st[e][1] = u
+		elif way == 'value':
+			st[e][0] = s['scheme']
+		elif way == 'none':
+			pass
+		else:
+			st[e][1], st[e][2] = u, p
+		if s['mode'] == 'set_element':  # Headers.set_element builds its own element from (scheme, params): the element's data with this scheme
+			out.append((s['scheme'], st[e][1], st[e][2]))
+		else:
+			out.append(tuple(st[e]))
+	return out
+
+
+def _seq_set(cls, hdr, elems, s):
+	from httoop import Headers
+	from httoop.util import ByteUnicodeDict
+	e, way = s['e'], s['set']
+	u, p = _h(s['u']), _h(s['p'])
+	if way == 'new':
+		elems[e] = cls(s['scheme'], {'username': u, 'password': p})
+		return
+	if way == 'new_text':
+		elems[e] = cls(s['scheme'], {'username': s['text'][0], 'password': s['text'][1]})
+		return
+	if way == 'create':
+		elems[e] = Headers().create_element(hdr, s['scheme'], {b'username': u, b'password': p})
+		return
+	if way == 'parsed':  # an element that came out of the parser is used as the source of the next field
+		elems[e] = cls.parse(s['scheme'].encode('ascii') + b' ' + b64_rfc4648(u + b':' + p))
+		return
+	if way == 'twin':  # a second element built from the first one's parameter mapping
+		elems[e] = cls(s['scheme'], elems[1 - e].params)
+		return
+	el = elems[e]
+	if way == 'item':
+		el.params['username'] = u
+		el.params['password'] = p
+	elif way == 'item_b':
+		el.params[b'username'] = u
+		el.params[b'password'] = p
+	elif way == 'item_p':
+		el.params['password'] = p
+	elif way == 'item_u':
+		el.params[b'username'] = u
+	elif way == 'update':
+		el.params.update({'username': u, 'password': p})
+	elif way == 'update_p':
+		el.params.update({b'password': p})
+	elif way == 'replace':
+		el.params = ByteUnicodeDict({'username': u, 'password': p})
+	elif way == 'popset':
+		el.params.pop('username')
+		el.params.pop(b'password')
+		el.params.setdefault('username', u)
+		el.params.setdefault('password', p)
+	elif way == 'delset':
+		del el.params['password']
+		del el.params['username']
+		el.params[b'password'] = p
+		el.params['username'] = u
+	elif way == 'clear':
+		el.params.clear()
+		el.params.update({b'username': u, 'password': p})
+	elif way == 'setdefault':
+		el.params.clear()
+		el.params.setdefault('password', p)
+		el.params.setdefault(b'username', u)
+	elif way == 'attr':
+		el.username = u.decode('ascii')
+		el.password = p.decode('ascii')
+	elif way == 'attr_p':
+		el.password = p.decode('ascii')
+	elif way == 'attr_u':
+		el.username = u.decode('ascii')
+	elif way == 'item_text':  # text stored after construction, then the public sanitize() (what the constructor runs)
+		el.params['username'] = s['text'][0]
+		el.params['password'] = s['text'][1]
+		el.sanitize()
+	elif way == 'value':
+		el.value = s['scheme']
+	elif way == 'none':
+		pass
+	else:
+		raise ValueError(way)
+
+
+def _observe_seq(c):
+	from httoop import Headers
+	hdr = c['hdr']
+	cls = header_class(hdr)
+	elems = {}
+	hs, hr = Headers(), Headers()  # one sending and one receiving header block for the whole sequence
+	out = []
+	for s in c['steps']:
+		o = {}
+		out.append(o)
+		try:
+			_seq_set(cls, hdr, elems, s)
+		except Exception as exc:
+			o['err'], o['stage'] = err_of(exc), 'set'
+			break
+		el = elems[s['e']]
+		try:
+			mode = s['mode']
+			if mode == 'bytes':
+				field = bytes(el)
+			elif mode == 'compose':
+				field = el.compose()
+			elif mode == 'str':
+				field = str(el).encode('latin-1')
+			elif mode == 'hdr':
+				hs[hdr] = el
+				field = hs.getbytes(hdr)
+				o['wire'] = bytes(hs).hex()
+			elif mode == 'hdr_fresh':
+				h = Headers()
+				h[hdr.lower()] = el
+				field = h.getbytes(hdr)
+				o['wire'] = bytes(h).hex()
+			elif mode == 'set_element':
+				hs.set_element(hdr, s['scheme'], dict(el.params))
+				field = hs.getbytes(hdr)
+				o['wire'] = bytes(hs).hex()
+			else:
+				raise ValueError(mode)
+		except Exception as exc:
+			o['err'], o['stage'] = err_of(exc), 'compose'
+			continue
+		o['field'] = field.hex()
+		try:
+			o['direct'] = elem_obs(cls.parse(field))
+			line = hdr.encode('ascii') + b': ' + field
+			rx = s['rx']
+			if rx == 'fresh':
+				h2 = Headers()
+				h2.parse(line)
+			elif rx == 'clear':
+				h2 = hr
+				h2.clear()
+				h2.parse(line)
+			elif rx == 'set':
+				h2 = hr
+				h2[hdr] = field
+			elif rx == 'del':
+				h2 = hr
+				if hdr in h2:
+					del h2[hdr]
+				h2.parse(line)
+			elif rx == 'pop':
+				h2 = hr
+				h2.pop(hdr)
+				h2.parse(line + b'\r\nHost: x')
+			elif rx == 'append':
+				h2 = hr
+				h2.pop(hdr, None)
+				h2.append(hdr, field)
+			else:
+				raise ValueError(rx)
+			o['back'] = elem_obs(h2.element(hdr))
+			# (Headers.elements()/get_element() split a credentials field at white space before every word without '=': on the
+			# unchanged tree they raise for a Basic field whose base64 carries no padding -- reported, excluded here: the
+			# list accessors are only read when user:password is not a multiple of three octets long)
+			if field.endswith(b'='):
+				o['back_list'] = elem_obs(h2.get_element(hdr))
+		except Exception as exc:
+			o['err'], o['stage'] = err_of(exc), 'parse'
+	return out
+
+
+def _observe_reenc(c):
+	from httoop import Headers
+	cls = header_class(c['hdr'])
+	try:
+		field = bytes(cls(c['scheme'], {'username': _h(c['u']), 'password': _h(c['p'])}))
+	except Exception as exc:
+		return {'err': err_of(exc), 'stage': 'compose'}
+	o = {'field': field.hex()}
+	scheme, sp, token = field.partition(b' ')
+	# the same credentials on the wire as another sender may write them
+	value = c.get('wscheme', scheme.decode('latin-1')).encode('latin-1') + _h(c.get('sep', '20')) + token
+	line = c.get('name', c['hdr']).encode('ascii') + b':' + _h(c.get('ows1', '20')) + value + _h(c.get('ows2', ''))
+	lines = [_h(x) for x in c.get('before', [])] + [line] + [_h(x) for x in c.get('after', [])]
+	if 'other' in c:
+		oh, ou, op, first = c['other']
+		ol = oh.encode('ascii') + b': Basic ' + b64_rfc4648(_h(ou) + b':' + _h(op))
+		lines = [ol] + lines if first else lines + [ol]
+	o['wire'] = b'\r\n'.join(lines).hex()
+	try:
+		h = Headers()
+		h.parse(b'\r\n'.join(lines))
+		o['stored'] = h.getbytes(c.get('lookup', c['hdr'])).hex()
+		o['back'] = elem_obs(h.element(c.get('lookup', c['hdr'])))
+		if 'other' in c:
+			o['other'] = elem_obs(h.element(c['other'][0]))
+	except Exception as exc:
+		o['err'], o['stage'] = err_of(exc), 'parse'
+	return o
+
+
 def observe(c):
 	from httoop import Headers
 	from httoop.authentication.basic import BasicAuthRequestScheme
 	from httoop.util import decode_base64, encode_base64
 	import binascii
 	k = c['k']
+	if k == 'seq':
+		return {'steps': _observe_seq(c)}
+	if k == 'reenc':
+		return _observe_reenc(c)
 	if k == 'enc':
 		return {'ok': encode_base64(_h(c['d'])).hex()}
 	if k == 'dec':
@@ -261,6 +704,9 @@ def observe(c):
 	raise ValueError(k)
 
 
+COQ_MAX = 4200  # octets of user + password beyond which a case is oracle-only (a longer literal overflows coqc's stack)
+
+
 def _guard(v):
 	# the model leaves every value containing '=?' to the RFC 2047 path (see Model/AuthCommon.v rfc2047_guard)
 	return b'=?' in v
@@ -284,7 +730,28 @@ def coq_case(c, o):
 		if is_escape(o.get('err')) and _guard(_h(c['v'])):
 			return None
 		return 'CElemParse %s %s' % (X(_h(c['v'])), coq_pres(o))
+	if k == 'seq':
+		# every compose of the sequence against the model of a FRESH element with the final data of that step
+		out = []
+		for s, (scheme, u, p), so in zip(c['steps'], _seq_expect(c['steps']), o['steps']):
+			if len(u) + len(p) > COQ_MAX:
+				continue
+			if 'field' in so:
+				out.append('CElemCompose %s (Some %s) (Some %s) (Ok %s)' % (X(scheme.encode('ascii')), X(u), X(p), X(_h(so['field']))))
+			elif so.get('stage') == 'compose':
+				out.append('CElemCompose %s (Some %s) (Some %s) (Err %s)' % (X(scheme.encode('ascii')), X(u), X(p), coq_err(so['err'])))
+		return out or None
+	if k == 'reenc':
+		if 'stored' not in o:
+			return None
+		v = _h(o['stored'])
+		if len(v) > 2 * COQ_MAX or _guard(v):
+			return None
+		back = o['back'] if 'back' in o else {'err': o['err']}
+		return 'CElemParse %s %s' % (X(v), coq_pres(back))
 	if k == 'rt':
+		if len(c['u']) + len(c['p']) > 2 * COQ_MAX:
+			return None  # the longest credentials (8190 .. 65536 octets) are oracle-only
 		if 'field' in o:
 			return 'CElemCompose %s %s %s (Ok %s)' % (X(c['scheme'].encode('ascii')), oX(c['u']), oX(c['p']), X(_h(o['field'])))
 		return 'CElemCompose %s %s %s (Err %s)' % (X(c['scheme'].encode('ascii')), oX(c['u']), oX(c['p']), coq_err(o['err']))
@@ -302,9 +769,15 @@ def oracle(c, o):
 		if _h(o['ok']) != want:
 			return 'encode_base64 differs from RFC 4648 base64 in 76-character lines: %s' % o['ok'][:80]
 		return None
+	if k == 'seq':
+		return _oracle_seq(c, o)
+	if k == 'reenc':
+		return _oracle_reenc(c, o)
 	if k != 'rt':
 		return None
 	u, p = _h(c['u']), _h(c['p'])
+	if 'text' in c and (c['text'][0].encode('utf-8') != u or c['text'][1].encode('utf-8') != p):
+		return 'harness: text and octets of the case differ'
 	if b':' in u:
 		return None
 	if 'err' in o and 'field' not in o:
@@ -332,6 +805,63 @@ def oracle(c, o):
 	return None
 
 
+def _check_parsed(got, u, p, what):
+	if 'err' in got:
+		return '%s: parsing raised %s' % (what, got['err'])
+	want = [[b'username'.hex(), u.hex()], [b'password'.hex(), p.hex()]]
+	if sorted(got['params']) != sorted(want):
+		return '%s: parsed credentials differ from (user %s, password %s): %r' % (what, u.hex()[:40], p.hex()[:40], got['params'])
+	if _h(got['value']).lower() != b'basic':
+		return '%s: parsed scheme is %r' % (what, _h(got['value']))
+	return None
+
+
+def _oracle_seq(c, o):
+	exp = _seq_expect(c['steps'])
+	for i, (s, (scheme, u, p), so) in enumerate(zip(c['steps'], exp, o['steps'])):
+		what = 'stateful use, step %d (%s, %s, %s)' % (i, s['set'], s['mode'], s['rx'])
+		if b':' in u:
+			return None
+		if 'field' not in so:
+			return '%s: %s raised %s' % (what, so.get('stage'), so.get('err'))
+		field = _h(so['field'])
+		want = _title(scheme) + b' ' + b64_rfc4648(u + b':' + p)
+		if field != want:
+			return '%s: composed %r, a fresh element with the same data (user %s, password %s) gives %r' % (what, field[:60], u.hex()[:40], p.hex()[:40], want[:60])
+		if 'wire' in so:
+			wire = _h(so['wire'])
+			if wire != c['hdr'].encode('ascii') + b': ' + want + b'\r\n\r\n':
+				return '%s: the header block is %r' % (what, wire[:80])
+		if 'err' in so:
+			return '%s: %s raised %s' % (what, so.get('stage'), so['err'])
+		for via in ('direct', 'back', 'back_list'):
+			if via in so:
+				fail = _check_parsed(so[via], u, p, '%s via %s' % (what, via))
+				if fail:
+					return fail
+	if len(o['steps']) != len(c['steps']):
+		return 'stateful use: the sequence stopped after step %d' % (len(o['steps']) - 1,)
+	return None
+
+
+def _oracle_reenc(c, o):
+	u, p = _h(c['u']), _h(c['p'])
+	if b':' in u:
+		return None
+	if 'field' not in o:
+		return 're-encoded field: compose raised %s' % (o['err'],)
+	if _h(o['field']) != _title(c['scheme']) + b' ' + b64_rfc4648(u + b':' + p):
+		return 're-encoded field: the composed field is not scheme SP base64(user:password): %r' % (_h(o['field'])[:60],)
+	if 'err' in o:
+		return 're-encoded field: parsing %r raised %s' % (_h(o['wire'])[:80], o['err'])
+	fail = _check_parsed(o['back'], u, p, 're-encoded field %r' % (_h(o['wire'])[:80],))
+	if fail:
+		return fail
+	if 'other' in c:
+		return _check_parsed(o['other'], _h(c['other'][1]), _h(c['other'][2]), 're-encoded field, neighbouring %s' % (c['other'][0],))
+	return None
+
+
 def classify(c, o, fail):
 	return None
 
@@ -339,6 +869,9 @@ def classify(c, o, fail):
 def nontrivial(c, o):
 	if 'harness_exception' in o:
 		return None
+	if c['k'] in ('seq', 'reenc'):
+		import json
+		return (c['k'], json.dumps(c, sort_keys=True))
 	return (c['k'], c.get('d'), c.get('u'), c.get('p'), c.get('info'), c.get('v'), c.get('scheme'), c.get('hdr'))
 
 
